@@ -121,10 +121,11 @@ def main(argv=None):
     seen = set()
     n_known_lines = set()
     for (k, uname, o) in known_hits:
-        key = (k["property"], k["obligation"], k.get("unit"))
+        oname_k = k.get("obligation") or (k.get("obligation_prefix", "") + "*")
+        key = (k["property"], oname_k, k.get("unit"))
         if key not in n_known_lines:
             n_known_lines.add(key)
-            print(f"KNOWN-FINDING: property={pid} {k['obligation']} ({uname}): {k['what']}")
+            print(f"KNOWN-FINDING: property={pid} {oname_k} ({uname}): {k['what']}")
     for (uname, o) in violations + unknowns:
         key = (uname, o["name"])
         if key in seen:
@@ -199,7 +200,7 @@ def main(argv=None):
         paths_explored=sum(r.get("paths", 0) or 0 for r in results),
         instrumentation=INSTRUMENTATION, sources=list(src_infos.values()),
         samples=samples or [dict(note="no obligations")],
-        known_findings_hit=[dict(obligation=k["obligation"], unit=u, what=k["what"]) for (k, u, o) in known_hits],
+        known_findings_hit=[dict(obligation=o["name"], unit=u, what=k["what"]) for (k, u, o) in known_hits],
         undecided=[f"{u}: {m}" for (u, m) in undecided], crashes=[f"{u}: {m}" for (u, m, _) in crashes],
         explanation=getattr(mod, "EXPLANATION", ""),
         exhaustive=False,
